@@ -71,7 +71,7 @@ func childMain(cfg props.Cfg) int {
 		nPos, nNeg = nPos/4+1, nNeg/8+1
 	}
 	rng := gen.NewRand(cfg.Seed, fmt.Sprintf("c08/%s/%d", mode, w))
-	for i := 0; i < nPos && atomic.LoadInt64(&stallsSeen) < 3; i++ {
+	for i := 0; i < nPos && atomic.LoadInt64(&stallsSeen) < 3 && atomic.LoadInt64(&openFailures) < 4; i++ {
 		positive(s, em, rng, w == 0 && i < 2)
 	}
 	for done := 0; done < nNeg; {
@@ -295,8 +295,13 @@ func openingFailed(s sink.Sink, sw *stallWatch, kind, what string, prop client.C
 		s.Case(fmt.Sprintf("positive|%s|%s", kind, canon.Shape(prop)), true)
 		return
 	}
+	atomic.AddInt64(&openFailures, 1)
 	s.Inconclusive(what + " failed: " + err.Error())
 }
+
+// openFailures counts honest openings that failed without a verdict in this process; after a few
+// the remaining positives are skipped (each costs the full patience and decides nothing).
+var openFailures int64
 
 func positive(s sink.Sink, em *childrun.Emitter, rng *rand.Rand, sample bool) {
 	kind := []string{"ledger", "ledger", "sub", "virtual", "nonce-differential"}[rng.Intn(5)]
